@@ -14,9 +14,9 @@ PID = "C01"
 TRANSLATORS = ["T-jumpi", "T-consts", "T-branchpts", "T-assertbranch", "T-dispatch"]
 
 PLAN_QUICK = [("straight", 14), ("branch", 14), ("memory", 10), ("storage", 10), ("hash", 10), ("log", 6), ("loop", 14), ("call", 12), ("create", 14),
-              ("opgrid", 32), ("callfail", 22), ("symtarget", 12), ("valuecall", 12), ("corr", 16), ("symloop", 12), ("stackops", 12), ("hashcond", 8), ("symstore", 12)]
+              ("opgrid", 32), ("callfail", 22), ("symtarget", 12), ("valuecall", 12), ("corr", 16), ("symloop", 12), ("stackops", 12), ("hashcond", 8), ("symstore", 12), ("create2", 12)]
 PLAN_THOROUGH = [("straight", 150), ("branch", 200), ("memory", 120), ("storage", 150), ("hash", 150), ("log", 60), ("loop", 80), ("call", 200), ("create", 100),
-                 ("opgrid", 600), ("callfail", 300), ("symtarget", 150), ("valuecall", 150), ("corr", 150), ("symloop", 150), ("stackops", 150), ("hashcond", 100), ("symstore", 150)]
+                 ("opgrid", 600), ("callfail", 300), ("symtarget", 150), ("valuecall", 150), ("corr", 150), ("symloop", 150), ("stackops", 150), ("hashcond", 100), ("symstore", 150), ("create2", 150)]
 
 ASSUMPTIONS = [
     "standard interpretation of keccak (real Keccak-256) and exact definitions of the f_evm_* abstractions when evaluating halmos' terms",
@@ -35,6 +35,12 @@ def sig_of(desc, fail):
     sig = {"what": fail.get("what", ""), "features": ",".join(feats), "halmos": str(fail.get("halmos"))[:40], "reference": str(fail.get("reference"))[:40]}
     if 0xF2 in code:
         sig["features"] += ",CALLCODE"
+    sig["profile"] = str(desc.get("profile", ""))
+    # recorded finding C01-create2-placeholder-address: only on the corpus entries written to exhibit it, only when the
+    # difference is in the published data and halmos' side shows a CREATE2 name (0xBBBB0000 + k) where the reference has
+    # the hash / the 0 of an address collision.  Any other CREATE2 difference stays a violation.
+    if "known-create2-placeholder-" in sig["profile"] and fail.get("what") == "return data" and "bbbb000" in str(fail.get("halmos")):
+        sig["observable"] = "create2-placeholder"
     if "path_kinds" in fail:      # C02 direction: an input covered by no reported path
         sig["what"] = "uncovered"
         sig["symbolic_jump"] = bool(desc.get("options", {}).get("symbolic_jump"))
